@@ -459,10 +459,15 @@ def c13(prop, tier):
 def c03(prop, tier):
     curves = ["bn254"] if tier == "quick" else CURVES
     jobs = [Job("filterHeap-" + c, "./backend/groth16/" + c, ["prelude_sym.go", "prelude_fr_sym.go", "c03_filterheap.go"], {"PKGNAME": "groth16", "FRPKG": fr_pkg(c)}) for c in curves]
+    for c in (["bn254", "bw6-761"] if tier == "quick" else CURVES):
+        sub = dict(groth_subst(c), FRPKG=fr_pkg(c), CURVE=c)
+        jobs.append(Job("commitment-challenge-" + c, "./backend/groth16/" + c, ["prelude_sym.go", "prelude_fr_sym.go", "c03_challenge.go"], sub))
     return run_property(prop, tier, jobs,
-                        title="C03 (prover kernel only): filterHeap, which selects the wire values fed to the Krs multi-exponentiation when commitments exist, removes exactly the listed indices (duplicates, any order) and keeps the others in order, for slices of 0..4 elements, offsets 0..3 and 0..3 symbolic indices.",
+                        expect_reach={"verifHarness_commitmentChallengeConsistency": ["challenge-compared"]},
+                        title="C03 (prover kernels and prover/verifier agreement): Groth16 commitment-wire derivation: the real Prove (cut at the solver, whose stand-in runs the prover's hint override) and the real Verify (cut at the public-input multi-exponentiation) hash exactly the same bytes and, given the same digest, derive the same field element, for 0..2 committed public values, 0..1 private ones, symbolic values and commitment point, and hash-to-field functions with a digest shorter than / equal to / longer than a field element set on both sides; filterHeap, which selects the wire values fed to the Krs multi-exponentiation when commitments exist, removes exactly the listed indices (duplicates, any order) and keeps the others in order, for slices of 0..4 elements, offsets 0..3 and 0..3 symbolic indices.",
                         design_ref="DESIGN.md §3 C03",
-                        assumptions=["caller contract: indices to remove are not below the slice's first index"],
+                        assumptions=["caller contract: indices to remove are not below the slice's first index",
+                                     "encodings (Element.Marshal, big.Int.FillBytes, G1Affine.Marshal, Element.SetBytes) are opaque functions of their argument; the hash is a recording stand-in whose digest is arbitrary"],
                         outside=["everything else in Setup / Prove / Verify: FFT/MSM pipelines on 254-761 bit fields, goroutine graphs; 'Prove fails on a non-satisfying assignment' is C06's error half"])
 
 
